@@ -129,6 +129,9 @@ func genMpmc(r *lib.Rand) *HistSpec {
 		k := r.Intn(i + 1)
 		h.Threads[i], h.Threads[k] = h.Threads[k], h.Threads[i]
 	}
+	for i := range h.Threads {
+		h.Threads[i].Ctx = r.Chance(40)
+	}
 	// payload bases depend on the final thread number: producers use their own constant, which
 	// stays unique because it was derived from the pre-shuffle index
 	return h
@@ -267,7 +270,7 @@ tail:
 			fmt.Fprintf(&sb, "op_close(%d)\n", r.Range(1, nch))
 		}
 	}
-	h.Threads = []ThreadSpec{{Role: "solo", Script: sb.String()}}
+	h.Threads = []ThreadSpec{{Role: "solo", Script: sb.String(), Ctx: r.Bool()}}
 	return h
 }
 
@@ -301,6 +304,18 @@ var snippets = []string{
 	`do local t = {} for i = 1, 10 do table.insert(t, i) end table.remove(t, 1) table.insert(t, 1, %[1]d) emit("tins", #t, t[1], t[#t], table.concat(t, "-")) end`,
 	`do local o = {v = %[1]d} function o.get(self) return self.v end function o:inc(d) self.v = self.v + d return self end
    emit("meth", o:inc(%[2]d):get(), o.get(o)) end`,
+	`do local function f1() error("boom%[1]d") end local function f2() error("bam") end local function f3() local x = nil return x.y end
+   local fs = {f1, f2, f3}
+   local ok, tb = xpcall(function() fs[VARIANT]() end, debug.traceback) emit("tb", tostring(ok), tb)
+   local ok2, tb2 = xpcall(function() return fs[(VARIANT %% 3) + 1]() end, debug.traceback) emit("tbtail", tostring(ok2), tb2)
+   for i = 1, 3 do local ok3, e3 = pcall(fs[((VARIANT + i) %% 3) + 1]) emit("pc", tostring(ok3), tostring(e3)) end end`,
+	`do local function who() local i = debug.getinfo(1, "n") return tostring(i and i.name) end
+   local function who2() return (who()) end local function who3() return who() end
+   local ws = {who, who2, who3}
+   emit("name", ws[VARIANT](), ws[(VARIANT %% 3) + 1](), ws[((VARIANT + 1) %% 3) + 1]()) emit("tbhere", debug.traceback("m%[1]d")) end`,
+	`do local function a1(x) return string.rep(x) end local function a2(x) return ("x"):rep(x, x, {}) .. string.char(-1) end
+   local function a3(x) return math.floor(x) end local as = {a1, a2, a3}
+   for i = 0, 2 do local ok, e = pcall(as[((VARIANT + i) %% 3) + 1], {}) emit("argerr", tostring(ok), tostring(e)) end end`,
 	`do local ok = pcall(string.rep) local a, b = tostring(nil), tostring(true) emit("misc", tostring(ok), a, b, type(print), tonumber("%[1]d"), tonumber("0x10")) end`,
 }
 
@@ -318,8 +333,17 @@ func genIso(r *lib.Rand, n, churn int) *IsoSpec {
 	var sb strings.Builder
 	for k := r.Range(4, 12); k > 0; k-- {
 		sn := snippets[r.Intn(len(snippets))]
-		fmt.Fprintf(&sb, sn, r.Range(1, 60), r.Range(1, 9), r.Range(3, 14))
+		a, b, c := r.Range(1, 60), r.Range(1, 9), r.Range(3, 14)
+		if strings.Contains(sn, "%[") {
+			fmt.Fprintf(&sb, sn, a, b, c)
+		} else {
+			sb.WriteString(strings.ReplaceAll(sn, "%%", "%"))
+		}
 		sb.WriteString("\n")
+	}
+	if r.Chance(40) {
+		sb.WriteString("local function e1() error(\"uncaught one\") end local function e2() local t = nil return t.x end\n" +
+			"local function e3() return e1() end\nlocal es = {e1, e2, e3}\nes[VARIANT]()\n")
 	}
 	src := sb.String()
 	if i := strings.Index(src, "%!"); i >= 0 {
@@ -334,6 +358,21 @@ func corpus() []Job {
 	solo := func(caps []int, script string) Job {
 		return Job{Kind: "hist", Hist: &HistSpec{Class: "solo", Caps: caps, Procs: 1, TimeoutMs: 10000, Threads: []ThreadSpec{{Role: "solo", Script: script}}}}
 	}
+	withCtx := func(j Job) Job {
+		h := *j.Hist
+		h.Threads = append([]ThreadSpec(nil), h.Threads...)
+		for i := range h.Threads {
+			h.Threads[i].Ctx = true
+		}
+		j.Hist = &h
+		return j
+	}
+	all := corpusBase(solo)
+	// the payload filter and every other sequential behaviour again on states that have a context
+	return append(all, withCtx(all[0]), withCtx(all[1]), withCtx(all[3]))
+}
+
+func corpusBase(solo func(caps []int, script string) Job) []Job {
 	return []Job{
 		// every sequential behaviour of the library once (buffer, closure, errors, filter, select, handlers)
 		solo([]int{2}, `
@@ -373,6 +412,10 @@ end
 			Receiver: "local ok, t = ch:receive()\nlocal y = t.x\n"}},
 		// one shared prototype, several states, churn
 		{Kind: "iso", Iso: &IsoSpec{Src: fmt.Sprintf(strings.Join(snippets, "\n"), 40, 7, 12), Other: otherSrc, N: 8, Churn: 3, Procs: 16, TimeoutMs: 60000}},
+		// states sharing a prototype take different callees through one anonymous call site and
+		// read the stack trace of the uncaught error (names come from Proto.DbgCalls)
+		{Kind: "iso", Iso: &IsoSpec{Src: "local function f1() error(\"boom\") end\nlocal function f2() error(\"boom\") end\nlocal function f3() return f1() end\n" +
+			"local fs = {f1, f2, f3}\nemit(\"before\")\nfs[VARIANT]()\nreturn 0\n", Other: otherSrc, N: 9, Churn: 2, Procs: 4, TimeoutMs: 60000}},
 	}
 }
 
